@@ -166,8 +166,9 @@ func (s *poolSeq) observe(op string) (string, []*nom.AccountBlock) {
 			break
 		}
 		if (p != nil) != pooled[id] {
-			s.c.Fail("pool after %s: GetPatch(%d:%s) answers %v but the block is %s the account's uncommitted chain [%s] (confirmed height %d)", op, id.Height, s8(id.Hash),
-				map[bool]string{true: "a patch", false: "nil"}[p != nil], map[bool]string{true: "on", false: "not on"}[pooled[id]], strings.TrimSpace(out), len(s.confirmed))
+			f := strings.SplitN(strings.TrimSpace(out), " ", 2)
+			s.c.Fail("pool after %s: GetPatch(%d:%s) answers %v but the block is %s the account's uncommitted chain [%s] (pool frontier %s, %d confirmed blocks): only the blocks of that chain are in the pool - a displaced, rolled back, refused or confirmed block is not", op, id.Height, s8(id.Hash),
+				map[bool]string{true: "a patch", false: "nil"}[p != nil], map[bool]string{true: "on", false: "not on"}[pooled[id]], f[len(f)-1], f[0], len(s.confirmed))
 			break
 		}
 	}
